@@ -278,4 +278,6 @@ def check(fx, rep, tier):
                 rep.bad(rid, 'floor|' + rule, '-', 'anchor lost in imported rule %s: expected %d %s' % (rule, fl, what))
         if not n:
             rep.bad(rid, 'anchor', '-', 'no instances of the imported %s rules' % pid)
+    import imports as _imp
+    _imp.layer(fx, rep, 'C19')
     return META
